@@ -4795,18 +4795,26 @@ let cmd_register k p rec0 self nd script c m =
                          (match t0 with
                           | ONormal ->
                             let m3 = box_alloc k mo m2 in
-                            (((upd o (fun x0 ->
-                                set (fun o0 -> o0.o_cleaner) (fun f ->
-                                  let o0 = fun r -> f r.o_cleaner in
-                                  (fun x1 -> { o_hdr = x1.o_hdr; o_vst =
-                                  x1.o_vst; o_box = x1.o_box; o_side =
-                                  x1.o_side; o_cls = x1.o_cls; o_ismap =
-                                  x1.o_ismap; o_fields = x1.o_fields;
-                                  o_wfields = x1.o_wfields; o_cleaner =
-                                  (o0 x1); o_borrowed = x1.o_borrowed;
-                                  o_mslots = x1.o_mslots; o_mfree =
-                                  x1.o_mfree; o_mborrowed = x1.o_mborrowed }))
-                                  (fun _ -> Some mo) x0) m3), mo), ONormal)
+                            (match mbind (Obj.magic (fun _ _ -> option_bind))
+                                     (Obj.magic (fun o0 -> o0.o_cleaner))
+                                     (get m3 o) with
+                             | Some existing ->
+                               let (m4, r) = rec0 (KDropCc mo) m3 in
+                               ((m4, (Obj.magic existing)), r)
+                             | None ->
+                               (((upd o (fun x0 ->
+                                   set (fun o0 -> o0.o_cleaner) (fun f ->
+                                     let o0 = fun r -> f r.o_cleaner in
+                                     (fun x1 -> { o_hdr = x1.o_hdr; o_vst =
+                                     x1.o_vst; o_box = x1.o_box; o_side =
+                                     x1.o_side; o_cls = x1.o_cls; o_ismap =
+                                     x1.o_ismap; o_fields = x1.o_fields;
+                                     o_wfields = x1.o_wfields; o_cleaner =
+                                     (o0 x1); o_borrowed = x1.o_borrowed;
+                                     o_mslots = x1.o_mslots; o_mfree =
+                                     x1.o_mfree; o_mborrowed =
+                                     x1.o_mborrowed })) (fun _ -> Some mo) x0)
+                                   m3), mo), ONormal))
                           | OPanic ->
                             let (m3, r) = unwinding (rec0 (KDropValue mo)) m2
                             in
